@@ -66,6 +66,18 @@ def family(ctx):
         "cfg unwind=1 x=1 f=1 | T0: blockon 0 0",
         "cfg unwind=1 x=1 f=1 | T0: blockon 0 1",
         "cfg unwind=1 x=1 f=1 | T0: spawn 1; st 0 1 rel; join 1 | T1: blockon 0 0",
+        # the example of the property text: a failure while a thread that has not started owns a handle (F11)
+        "cfg unwind=1 | T0: anew 0; aclone 0 1; spawnown 1 1; panic | T1: adrop 1",
+        "cfg unwind=1 | T0: anew 0; aclone 0 1; spawnown 1 1; adrop 0; join 1 | T1: adrop 1",
+        "cfg unwind=1 | T0: anew 0; aclone 0 1; spawnown 1 1; adrop 0; join 1 | T1: adrop 1; panic",
+        "cfg unwind=1 m=1 | T0: anew 0; aclone 0 1; spawnown 1 1; lock 0; lock 0 | T1: adrop 1",
+        # a failure raised while a cell section is open on the failing thread's stack
+        "cfg unwind=1 c=1 n=1 | T0: crdb 0; nwait 0",
+        "cfg unwind=1 c=1 n=1 | T0: cwrb 0 1; nwait 0",
+        "cfg unwind=1 c=1 | T0: crdb 0; panic",
+        "cfg unwind=1 c=1 | T0: cwrb 0 1; panic",
+        "cfg unwind=1 c=1 m=2 | T0: spawn 1; lock 0; crdb 0; lock 1; crde 0; unlock 1; unlock 0; join 1 | T1: lock 1; crdb 0; lock 0; crde 0; unlock 0; unlock 1",
+        "cfg unwind=1 c=1 n=2 | T0: spawn 1; crdb 0; nwait 0 | T1: crdb 0; nwait 1",
         "cfg unwind=1 | T0: alloc 0",
         "cfg unwind=1 | T0: alloc 0; panic",
         "cfg unwind=1 | T0: spawn 1; alloc 0; join 1; dealloc 0 | T1: panic",
